@@ -99,6 +99,9 @@ func isPanic(err error) bool { _, ok := err.(*panicErr); return ok }
 func drawKey(t *rapid.T, label string, id int, publicName string) *hello.Key {
 	seed := make([]byte, 32)
 	s := rapid.Uint64().Draw(t, label+"_seed")
+	for _, ch := range label { // distinct labels give distinct keys even for equal draws
+		s = (s ^ uint64(ch)) * 0x100000001b3
+	}
 	for i := range seed {
 		s = s*6364136223846793005 + 1442695040888963407
 		seed[i] = byte(s >> 56)
